@@ -725,6 +725,12 @@ func (obj *SparseInt8MatrixJointIterator) Ok() bool {
          !(obj.s2 == nil || obj.s2.GetInt8() == int8(0))
 }
 func (obj *SparseInt8MatrixJointIterator) Next() {
+  // skip positions where all operands are zero; stop when all
+  // iterators are exhausted
+  for obj.next() && !obj.Ok() {
+  }
+}
+func (obj *SparseInt8MatrixJointIterator) next() bool {
   ok1 := obj.it1.Ok()
   ok2 := obj.it2.Ok()
   obj.s1.ptr = nil
@@ -752,6 +758,7 @@ func (obj *SparseInt8MatrixJointIterator) Next() {
   } else {
     obj.s2 = ConstInt8(0.0)
   }
+  return ok1 || ok2
 }
 func (obj *SparseInt8MatrixJointIterator) Get() (Scalar, ConstScalar) {
   if obj.s1.ptr == nil {
@@ -806,6 +813,12 @@ func (obj *SparseInt8MatrixJoint3Iterator) Ok() bool {
          !(obj.s3 == nil || obj.s3.GetInt8() == 0.0)
 }
 func (obj *SparseInt8MatrixJoint3Iterator) Next() {
+  // skip positions where all operands are zero; stop when all
+  // iterators are exhausted
+  for obj.next() && !obj.Ok() {
+  }
+}
+func (obj *SparseInt8MatrixJoint3Iterator) next() bool {
   ok1 := obj.it1.Ok()
   ok2 := obj.it2.Ok()
   ok3 := obj.it3.Ok()
@@ -854,6 +867,7 @@ func (obj *SparseInt8MatrixJoint3Iterator) Next() {
   } else {
     obj.s3 = ConstInt8(0.0)
   }
+  return ok1 || ok2 || ok3
 }
 func (obj *SparseInt8MatrixJoint3Iterator) Get() (Scalar, ConstScalar, ConstScalar) {
   if obj.s1.ptr == nil {
